@@ -139,8 +139,15 @@ fn range(body: &str) -> String {
     }
 }
 
+/// in: NAME (as printed on a porcelain `filename` line)    out: the path utils::unescape_git_path gives | panic
+fn unquote(body: &str) -> String {
+    let xs = sexp::parse_many(body).expect("sexp");
+    cps(&git_ai::utils::unescape_git_path(&xs[0].string())).show()
+}
+
 pub fn dispatch(mode: &str) -> Option<fn(&str) -> String> {
     match mode {
+        "c09-unquote" => Some(unquote),
         "c09-pipe" => Some(pipe),
         "c09-real" => Some(real),
         "c09-range" => Some(range),
